@@ -6,7 +6,12 @@ from .run import known_match
 def run(prop, gi, g, tier, known, do_replay):
     tag = f"{prop}_{gi}"
     if g.get("gen"):
-        g["gen"]()          # regenerate generated harness sources from /repo's current tree
+        try:
+            g["gen"]()          # regenerate generated harness sources from /repo's current tree
+        except Exception as ex:
+            return dict(violations=[], inconclusive=[f"harness generation failed: {ex}"], known=[], samples=[],
+                        totals=dict(harnesses=0, ok=0, checks=0, passed=0, covers=0, vccs=0, symex=0.0, solver=0.0, prog=0),
+                        evidence=dict(engine="kani", crate=g["crate"], error=str(ex)))
     results, meta = kani.run_group(g["crate"], g["filters"], tag, jobs=g["jobs"], timeout_s=g["timeout_s"],
                                    cbmc_args=g["cbmc_args"], features=g["features"], extra_kani=g["extra_kani"])
     out = dict(violations=[], inconclusive=[], known=[], samples=[],
@@ -33,6 +38,16 @@ def run(prop, gi, g, tier, known, do_replay):
         T["prog"] += hr.prog_size
         j = hr.to_json()
         evg["harnesses"].append(j)
+        if g.get("expect_fail"):
+            # reachability witness group: the harness MUST fail with the named check (shows the stub/oracle bites)
+            hit = [f for f in hr.failed if g["expect_fail"] in f["description"]]
+            if hr.status == "Failure" and hit:
+                T["ok"] += 1
+                T["covers"] += 1
+                j["witness"] = "failed as required: " + hit[0]["description"]
+            else:
+                out["inconclusive"].append(f"witness harness {hid} did not fail with '{g['expect_fail']}' (status {hr.status}): the stub is not effective")
+            continue
         if hr.status == "Success":
             if hr.unsat_covers:
                 out["inconclusive"].append(f"harness {hid}: reachability witness unsatisfiable (vacuous?): "
